@@ -14,7 +14,8 @@
 (* a concurrent map; every update is a monotone maximum, so a partial publication lies between   *)
 (* two states that are explored here).                                                           *)
 EXTENDS DD, ParBnB
-CONSTANTS W, NoW, Kind
+CONSTANTS W, NoW, Kind,
+          Variant     \* "none" = the code; other values = seeded variants the invariants must reject (tools/selftest.py)
 VARIABLES P, wk, act, width
 pvars == <<P, wk, act, width>>
 allvars == <<vars, pvars>>
@@ -38,13 +39,15 @@ SP(x) == [st |-> x.st, depth |-> x.depth, value |-> x.value, ub |-> x.ub, path |
 QOf(sp) == Q(I, sp.st)
 
 \* ---- get_workload: one critical section, including the loop that skips the nodes the cache rejects
+MustExploreV(t, sp) == IF Variant = "strict_must_explore" THEN (CGet(t, sp.depth, sp.st) = NoTh \/ sp.value > CGet(t, sp.depth, sp.st)[1])
+                       ELSE MustExplore(t, sp)
 RECURSIVE PopOut(_, _, _)
 PopOut(w, Pq, x) ==                  \* Pq: the record once x has left the fringe; result: set of <<record, next phase, node>>
   LET sp == SP(x) IN
   IF x.ub <= Pq.bestLb THEN {<<PClearedAll(Pq, N), "get", NoCur>>}
-  ELSE IF MustExplore(Pq.table, sp) THEN {<<PWork(PMarkExplored(Pq, sp), w, sp), "lb1", sp>>}
+  ELSE IF MustExploreV(Pq.table, sp) THEN {<<PWork(PMarkExplored(Pq, sp), w, sp), "lb1", sp>>}
   ELSE LET P3 == PSkipped(Pq, sp) IN
-       IF P3.fringe = EmptyBag THEN {<<P3, "get", NoCur>>}
+       IF P3.fringe = EmptyBag THEN {<<P3, IF Variant = "wait_on_skipped_all" THEN "parked" ELSE "get", NoCur>>}
        ELSE UNION {PopOut(w, PPopped(P3, y), y) : y \in Poppable(P3.fringe)}
 Get(w) == /\ wk[w].phase = "get"
           /\ LET P1 == PClean(P, N)  kind == PWorkloadKind(P1) IN
